@@ -51,6 +51,7 @@ func main() {
 				runNil(n, int(rng.Uint64()%97), rng.Uint64())
 			}
 			if k < nargs/10 {
+				runPanic(n, int(rng.Uint64()%uint64(n)), rng.Uint64(), coef)
 				runRecursive(n, rng.Uint64()%4096, coef, int(rng.Uint64()%uint64(n)))
 			}
 		}
@@ -331,6 +332,68 @@ func runHetero(n int, arg string) {
 			rec.Violate(fmt.Sprintf("C20/Pipe%d/calls", n), fmt.Sprintf("f_%d applied %d times (calls %v)", i+1, k, calls), c)
 		}
 	}
+}
+
+// runPanic: a supplied function panics at stage k; the caller recovers and goes on using pipes. The panic has to come
+// through as it is (stages 1..k applied once, none after k), and later calls - of the same composed function and of
+// a freshly composed one - are whole again.
+func runPanic(n, k int, arg uint64, coef []uint64) {
+	c := caseT{Family: fmt.Sprint("panic-at/", k), N: n, Arg: fmt.Sprint(arg), Coef: coef}
+	calls := make([]int, n)
+	armed := true
+	fs := make([]func(uint64) uint64, n)
+	for i := range fs {
+		i := i
+		fs[i] = func(x uint64) uint64 {
+			calls[i]++
+			if armed && i == k {
+				panic(fmt.Sprintf("stage %d gives up", i))
+			}
+			return x*coef[2*i] + coef[2*i+1]
+		}
+	}
+	want := func(a uint64) uint64 {
+		for i := 0; i < n; i++ {
+			a = a*coef[2*i] + coef[2*i+1]
+		}
+		return a
+	}
+	f := composeI(fs)
+	rec.Eval(fmt.Sprint("p", n, k, arg), true)
+	pn := common.Catch(func() { f(arg) })
+	if s, ok := pn.(string); !ok || s != fmt.Sprintf("stage %d gives up", k) {
+		rec.Violate(fmt.Sprintf("C20/Pipe%d/panic", n), fmt.Sprintf("f_%d panicked with its own value, the composed function %v", k+1, pn), c)
+		return
+	}
+	for i, cnt := range calls {
+		if (i <= k) != (cnt == 1) || cnt > 1 {
+			rec.Violate(fmt.Sprintf("C20/Pipe%d/calls", n), fmt.Sprintf("f_%d panicked: calls %v, want one call for each of the first %d functions only", k+1, calls, k+1), c)
+			return
+		}
+	}
+	armed = false
+	for round := 0; round < 4; round++ {
+		for i := range calls {
+			calls[i] = 0
+		}
+		g := f
+		if round%2 == 1 {
+			g = composeI(fs) // a pipe composed after the panic
+		}
+		a := arg + uint64(round)
+		var got uint64
+		if p2 := common.Catch(func() { got = g(a) }); p2 != nil || got != want(a) {
+			rec.Violate(fmt.Sprintf("C20/Pipe%d/after-panic", n), fmt.Sprintf("call %d after f_%d had panicked once: got %d (panic %v), want %d; calls %v", round+1, k+1, got, p2, want(a), calls), c)
+			return
+		}
+		for i, cnt := range calls {
+			if cnt != 1 {
+				rec.Violate(fmt.Sprintf("C20/Pipe%d/after-panic", n), fmt.Sprintf("call %d after f_%d had panicked once: f_%d applied %d times", round+1, k+1, i+1, cnt), c)
+				return
+			}
+		}
+	}
+	rec.Count("function_applications_observed", int64(5*n))
 }
 
 // runRoundTrip: argument and result of the composed function have the same type while some stages go through
